@@ -11,14 +11,15 @@ for d in sorted(glob.glob(os.path.join(HERE, "seeded", "*", "meta.json"))):
     last = m["checks"][-1]
     why = (last["first"][1] if len(last["first"]) > 1 else "").replace("   why: ", "").replace("|", "/")
     rows.append((os.path.basename(os.path.dirname(d)), m["property"], m.get("initially_missed", False), m.get("strengthening", ""),
-                 last["detected"], why[:160]))
+                 last["detected"], why[:160], m.get("obsolete", False)))
 out = ["# Seeded changes (made by independent sub-agents from the property text only)", "",
        "Each directory: patch.diff, demo.py (fails with the change, passes without), note.txt, meta.json (what was confirmed and run).",
        "`tools/seeded.py run [prefix] [tier]` re-applies each patch to a scratch copy of /repo's working tree and runs the targeted check.", "",
        "%d changes; %d caught by the check as first built, %d missed at first and caught after the strengthening named below; %d currently undetected."
-       % (len(rows), sum(1 for r in rows if not r[2]), sum(1 for r in rows if r[2] and r[4]), sum(1 for r in rows if not r[4])), "",
+       % (len(rows), sum(1 for r in rows if not r[2]), sum(1 for r in rows if r[2] and r[4]), sum(1 for r in rows if not r[4] and not r[6])), "",
+       "%d change(s) no longer break their property after a repair of the library they led to (marked obsolete)." % sum(1 for r in rows if r[6]), "",
        "| change | property | first verdict | strengthening (when missed) | what the check reports now |", "|---|---|---|---|---|"]
 for r in rows:
-    out.append("| %s | %s | %s | %s | %s |" % (r[0], r[1], "missed" if r[2] else "caught", r[3] or "-", r[5] if r[4] else "**NOT DETECTED**"))
+    out.append("| %s | %s | %s | %s | %s |" % (r[0], r[1], "missed" if r[2] else "caught", r[3] or "-", r[5] if r[4] else ("obsolete: the property holds with this change since the repair" if r[6] else "**NOT DETECTED**")))
 open(os.path.join(HERE, "seeded", "README.md"), "w").write("\n".join(out) + "\n")
 print(out[5])
